@@ -504,4 +504,64 @@ def arraySiteOf (sites : List ArraySite) (func param : String) (rank : Nat) : Ar
 def siteSafe (s : ArraySite) : Bool :=
   (runS s.rank [{ shape := .input, own := false, ro := false }] s.ops).isSome
 
+/-! ## (c) results a method keeps on its object that derive from a caller-owned table -/
+
+/-- the caller's parameter tables: object identity (index) ↦ current values -/
+abbrev Tables := List (List Val)
+
+inductive TOp where
+  | newTable (content : List Val)
+  /-- the caller edits its own table in place (`table[:] = …`, `table -= rate * gradient`) -/
+  | mutate (t : Nat) (content : List Val)
+  /-- a library method is called with table `t` -/
+  | call (t : Nat)
+  /-- the store may forget any entry -/
+  | drop (j : Nat)
+  deriving Repr
+
+/-- how the kept result is found again: by the table's identity or by its values -/
+abbrev TKey := Option Nat × Option (List Val)
+
+structure TState (Out : Type) where
+  tables : Tables
+  store : List (TKey × Out)
+
+def tkey (kind : ArgKeyKind) (t : Nat) (content : List Val) : Option TKey :=
+  match kind with
+  | .none => none
+  | .identity => some (some t, none)
+  | .content => some (none, some content)
+
+section
+variable {Out : Type} (kind : ArgKeyKind) (f : List Val → Out)
+
+def stepT (st : TState Out) : TOp → TState Out × Option Out
+  | .newTable c => ({ st with tables := st.tables ++ [c] }, none)
+  | .mutate t c => ({ st with tables := st.tables.set t c }, none)
+  | .call t =>
+    match st.tables[t]? with
+    | none => (st, none)
+    | some c =>
+      match tkey kind t c with
+      | none => (st, some (f c))
+      | some k =>
+        match st.store.lookup k with
+        | some out => (st, some out)
+        | none => ({ st with store := (k, f c) :: st.store }, some (f c))
+  | .drop j => ({ st with store := st.store.eraseIdx j }, none)
+
+def runT (st : TState Out) : List TOp → TState Out
+  | [] => st
+  | op :: ops => runT (stepT kind f st op).1 ops
+
+def outsT (st : TState Out) : List TOp → List (Option Out)
+  | [] => []
+  | op :: ops => (stepT kind f st op).2 :: outsT (stepT kind f st op).1 ops
+
+end
+
+def initT {Out : Type} : TState Out := { tables := [], store := [] }
+
+def argStoreOK (s : ArgStore) : Bool := s.kind != .identity
+
 end OQuPyVerif.Aliasing
